@@ -12,6 +12,7 @@ import (
 	"math/rand"
 	"sort"
 	"strings"
+	"sync"
 
 	"github.com/apache/skywalking-banyandb/api/common"
 	modelv1 "github.com/apache/skywalking-banyandb/api/proto/banyandb/model/v1"
@@ -70,6 +71,26 @@ func resolve(rows []vrow) map[vkey]*resolved {
 		}
 	}
 	return out
+}
+
+// one cache object per table, as a shard has in production (every query passes the shard's cache)
+var (
+	cacheMu sync.Mutex
+	caches  = map[*tsTable]storage.Cache{}
+)
+
+func cacheOf(tst *tsTable) storage.Cache {
+	cacheMu.Lock()
+	defer cacheMu.Unlock()
+	c, ok := caches[tst]
+	if !ok {
+		if len(caches) > 64 {
+			caches = map[*tsTable]storage.Cache{}
+		}
+		c = storage.NewShardCache("verif", 0, 0)
+		caches[tst] = c
+	}
+	return c
 }
 
 const fam = "tf"
@@ -256,7 +277,7 @@ func scanTable(tst *tsTable, o scanOpts) (out []got, err error) {
 	qo := queryOptions{schemaTagTypes: schemaTypes(o.xType), minTimestamp: o.minTS, maxTimestamp: o.maxTS}
 	qo.TagProjection = vTagProjection
 	qo.FieldProjection = vFieldNames
-	pp, _ := s.getParts(nil, storage.NewShardCache("verif", 0, 0), o.minTS, o.maxTS)
+	pp, _ := s.getParts(nil, cacheOf(tst), o.minTS, o.maxTS)
 	m := &measure{pm: protector.Nop{}}
 	var result queryResult
 	result.ctx = context.Background()
